@@ -29,7 +29,7 @@ class C11(Prop):
         for inputs in [(), (5,), (5, 6), (5, 6, 7), (0, "", 3), ([], 1)]:
             for _ in range(n_hist):
                 evals += 1
-                ops = [rnd.choice(["?", "+", "_", "λ_;†", "1 λ?;†", "λ?_?;†", "2 3 λ2|+;†", "∇", "1 λ_X;†", "λW;2*†∑", "λ+;2*†"]) for _ in range(rnd.randrange(1, maxlen))]
+                ops = [rnd.choice(["?", "+", "_", "λ_;†", "1 λ?;†", "λ?_?;†", "2 3 λ2|+;†", "∇", "1 λ_X;†", "λW;2*†∑", "λ+;2*†", "@f:2|+;@f;"]) for _ in range(rnd.randrange(1, maxlen))]
                 prog = " ".join(ops) + " W"
                 r = rc.run_program(prog, inputs)
                 if r["error"] is not None:
@@ -85,7 +85,7 @@ class C11(Prop):
                 st.append(read())
             elif op == "2 3 λ2|+;†":
                 st.append(5)
-            elif op in ("λW;2*†∑", "λ+;2*†"):  # arity given at run time (2): two arguments from the outer stack, implicit reads for missing ones
+            elif op in ("λW;2*†∑", "λ+;2*†", "@f:2|+;@f;"):  # arity given at run time (2) / a function with a numeric parameter count: two arguments from the outer stack, implicit reads for missing ones
                 b, a = pop(), pop()
                 if not (isinstance(a, int) and isinstance(b, int)):
                     return None
